@@ -30,7 +30,7 @@ def w(case, ms=WATCHDOG_MS):
 
 def inner_kind(case):
     p = case.split("\t")
-    return p[2] if p[0] == "c05.w" and len(p) > 2 else p[0]
+    return p[2] if p[0] in ("c05.w", "c05.z") and len(p) > 2 else p[0]      # c05.z: wave 6 (props/C05_size.py)
 
 
 def crashed(o):
